@@ -92,7 +92,7 @@ func pow3(n int) int {
 func (c01) Build(tier string, seed uint64) []any {
 	var cs []any
 	maxBytes, maxRow := 9, 8
-	nStruct, nRand, randMax := 800, 400, 256
+	nStruct, nRand, randMax := 4000, 2000, 256
 	if tier == "thorough" {
 		maxBytes, maxRow = 12, 10
 		nStruct, nRand, randMax = 60000, 30000, 1024
